@@ -21,6 +21,7 @@ C05_FUNCS = [
     ("tensordict/base.py", "TensorDictBase", "unlock_", "def"),
     ("tensordict/base.py", "TensorDictBase", "_lock_parents_weakrefs", "getter"),
     ("tensordict/utils.py", "", "lock_blocked", "def"), ("tensordict/utils.py", "", "_lock_after_memmap", "def"),
+    ("tensordict/utils.py", "TensorDictFuture", "result", "def"),
     ("tensordict/_lazy.py", "LazyStackedTensorDict", "is_locked", "getter"), ("tensordict/_lazy.py", "LazyStackedTensorDict", "_lock_parents_weakrefs", "getter"),
     ("tensordict/_lazy.py", "LazyStackedTensorDict", "_propagate_lock", "def"), ("tensordict/_lazy.py", "LazyStackedTensorDict", "_propagate_unlock", "def"),
     ("tensordict/_lazy.py", "LazyStackedTensorDict", "share_memory_", "def"),
